@@ -20,6 +20,9 @@ def dispatch(prop, tier):
     if prop == 'C15':
         from harness.checks import order
         return order.run_c15(tier)
+    if prop == 'C14':
+        from harness.checks import expr
+        return expr.run_c14(tier)
     raise core.Infra('no check registered for %s' % prop)
 
 
